@@ -172,8 +172,8 @@ def children_lists():
 
 CODEUNIT_LISTS = ["absinterfaces", "common", "enums", "functions", "interfaces", "subroutines", "types", "variables", "namelists"]
 # lists a procedure must not show when proc_internals is off ("local variables, derived types, etc.": user guide).  Namelists are
-# exempt: FORD documents a procedure's namelists on pages of their own whatever proc_internals says (Project._fortran_file), and a
-# procedure (obj == "proc") never has modprocedures/modfunctions/modsubroutines.
+# exempt: FORD documents a procedure's namelists on pages of their own whatever proc_internals says (Project._fortran_file; the repository's test
+# test_project.py::test_find_namelists pins that down), and a procedure (obj == "proc") never has modprocedures/modfunctions/modsubroutines.
 HIDDEN_EMPTY = ["functions", "subroutines", "types", "interfaces", "absinterfaces", "variables", "enums", "common"]
 PRUNE_RECURSE = ["functions", "subroutines", "types", "modprocedures", "modfunctions", "modsubroutines"]
 
